@@ -8,8 +8,9 @@ route tree), and the real handlers of every endpoint under recording mutators.
 Monitors (independent of the Lean model):
 * static: every file of the sandbox has unique content; any returned bytes that contain the
   content of a file whose realpath is outside both resolved roots is a violation.
-* sanction: with clients configured and no certificate, no endpoint named run / reset / submit /
-  snapshot is sanctioned, and no real handler reaches a mutator; a raising / unresolvable hook
+* sanction: with client certificates configured (real PEM key directories: valid, mixed, all expired,
+  expired yesterday, not yet valid) and no certificate presented, no endpoint named run / reset /
+  submit / snapshot is sanctioned, and no real handler reaches a mutator; a raising / unresolvable hook
   never yields access; a handler never runs for a request that `security.sanctioned` refuses."""
 import builtins
 import errno
@@ -39,7 +40,9 @@ MANIFEST = dict(
          'guard_first, check_before_handler, stranger_cannot_command, raising_hook_runs_nothing). Tied by '
          'translator (tables, ladder) validated on the full grid against the real functions, and by a '
          'correspondence run of the real _static on generated sandbox trees and of every registered resource; '
-         'the monitors run the real handlers under recording mutators.',
+         'the monitors run the real handlers under recording mutators, with client certificates configured '
+         'through real PEM key directories (valid, mixed, all expired, expired yesterday, not yet valid) loaded by '
+         'the real security._tls_initialize.',
     note='Trusted: Lean kernel; axioms propext/Classical.choice/Quot.sound only; tools/gen_c19.py (AST subset, '
          'call-graph walk over dawgie.fe modules with a deny-list of mutator names); harness fakes (twisted request, '
          'transport, certificate, hook module, recording mutators). Assumed, sampled not proved: '
@@ -709,25 +712,98 @@ class FakeCert:
         return 0x1234
 
 
+KEYDIRS = {
+    # label -> [(common name, days since notBefore, life time in days)]: dawgie.public.pem.<name> files of one
+    # guest key directory, generated for real and loaded by the real security._tls_initialize
+    'fresh': [('alice', 30, 365)],
+    'mixed': [('alice', 30, 365), ('bob', 730, 365)],  # one valid, one lapsed a year ago
+    'lapsed': [('bob', 730, 365), ('carol', 366, 365)],  # every configured certificate has expired
+    'lapsed-1d': [('dora', 31, 30)],  # the only certificate expired yesterday
+    'future': [('erin', -2, 365)],  # not valid yet
+}
+
+
+def describe(clients):
+    if not clients:
+        return 'no client certificates configured'
+    label = 'fresh' if clients is True else clients
+    spec = KEYDIRS.get(label, [])
+    lapsed = sum(1 for _n, age, life in spec if age > life)
+    return (f'key directory "{label}": {len(spec)} client certificate(s) configured, {lapsed} of them past '
+            f'their notAfter date')
+
+
+def make_pem(name, age_days, life_days):
+    import datetime
+
+    from cryptography import x509
+    from cryptography.hazmat.primitives import hashes, serialization
+    from cryptography.hazmat.primitives.asymmetric import ec
+    from cryptography.x509.oid import NameOID
+
+    start = datetime.datetime.now(datetime.timezone.utc) - datetime.timedelta(days=age_days)
+    key = ec.generate_private_key(ec.SECP256R1())
+    who = x509.Name([x509.NameAttribute(NameOID.COMMON_NAME, name)])
+    cert = (x509.CertificateBuilder().subject_name(who).issuer_name(who).public_key(key.public_key())
+            .serial_number(x509.random_serial_number()).not_valid_before(start)
+            .not_valid_after(start + datetime.timedelta(days=life_days)).sign(key, hashes.SHA256()))
+    return cert.public_bytes(serialization.Encoding.PEM)
+
+
 class Env:
-    """configuration of the real security module for one grid point"""
+    """configuration of the real security module for one grid point.
+
+    `clients` is False (nothing configured) or the label of a key directory of KEYDIRS (True = 'fresh'):
+    real PEM files written to a temp directory and loaded once by the real `security._tls_initialize`;
+    the loaded list is then put back into `security._certs` for each grid point."""
 
     def __init__(self):
         import dawgie.context
         import dawgie.security
 
         self.context, self.security = dawgie.context, dawgie.security
-        self.saved = (list(dawgie.security._certs), dawgie.context.sanction_override)  # pylint: disable=protected-access
+        sec = dawgie.security
+        self.saved = (list(sec._certs), dawgie.context.sanction_override,  # pylint: disable=protected-access
+                      dict(sec._myself), dict(sec._system))  # pylint: disable=protected-access
         install_hooks()
+        self.loaded = {}
+        self.real_pems = True
+        self.top = tempfile.mkdtemp(prefix='c19_keys_')
+        try:
+            for label, spec in KEYDIRS.items():
+                d = os.path.join(self.top, label)
+                os.makedirs(d)
+                for name, age, life in spec:
+                    with open(os.path.join(d, 'dawgie.public.pem.' + name), 'wb') as fh:
+                        fh.write(make_pem(name, age, life))
+                sec._tls_initialize(d)  # pylint: disable=protected-access
+                self.loaded[label] = list(sec._certs)  # pylint: disable=protected-access
+                if len(self.loaded[label]) != len(spec):
+                    raise RuntimeError(f'{label}: {len(self.loaded[label])} of {len(spec)} certificates loaded')
+        except Exception:  # pylint: disable=broad-except
+            # no way to make real certificates here: fall back to opaque objects (counted in the evidence)
+            self.real_pems = False
+            self.loaded = {label: [FakeCert() for _ in spec] for label, spec in KEYDIRS.items()}
+        self._restore_tls()
+
+    def _restore_tls(self):
+        sec = self.security
+        sec._certs[:] = self.saved[0]  # pylint: disable=protected-access
+        sec._myself.clear()  # pylint: disable=protected-access
+        sec._myself.update(self.saved[2])  # pylint: disable=protected-access
+        sec._system.clear()  # pylint: disable=protected-access
+        sec._system.update(self.saved[3])  # pylint: disable=protected-access
 
     def set(self, clients, mode):
-        self.security._certs[:] = [FakeCert()] if clients else []  # pylint: disable=protected-access
+        label = 'fresh' if clients is True else clients
+        self.security._certs[:] = list(self.loaded[label]) if label else []  # pylint: disable=protected-access
         self.context.sanction_override = HOOKS[mode][0]
 
     def restore(self):
-        self.security._certs[:] = self.saved[0]  # pylint: disable=protected-access
+        self._restore_tls()
         self.context.sanction_override = self.saved[1]
         sys.modules.pop('verif_c19_hooks', None)
+        shutil.rmtree(self.top, ignore_errors=True)
 
 
 def registry():
@@ -802,6 +878,8 @@ def render_recorded(env, dc, method, clients, certkind, mode, args=None):
     # what the property demands for this request: a failing hook denies; otherwise the decision of
     # security.sanctioned itself (evaluated here, outside __render)
     expected_ok = False if mode in FAIL_MODES else bool(real(dc_uri(dc), cert if certkind == 'cert' else None))
+    if mode == 'default' and clients and certkind != 'cert' and last_segment(dc_uri(dc)) in COMMAND_WORDS:
+        expected_ok = False  # the property text: certificates configured, none presented, a command
     security.sanctioned = spy
     dc._DynamicContent__fnc = handler  # pylint: disable=protected-access
     try:
@@ -837,9 +915,11 @@ def render_verdict(res, rep, events, ok):
         sig = ('C19:anon-command:' + uri if (mode == 'default' and last_segment(uri) in COMMAND_WORDS)
                else 'C19:hook-fail-open' if mode in FAIL_MODES
                else 'C19:handler-unsanctioned')
-        why = 'the access hook fails' if mode in FAIL_MODES else 'security.sanctioned refuses the request'
+        why = ('the access hook fails' if mode in FAIL_MODES
+               else 'the caller presented no certificate' if sig.startswith('C19:anon-command')
+               else 'security.sanctioned refuses the request')
         res.hit(sig, f"{RENDER[rep['method']]} of {uri} ran the handler although {why} "
-                     f"(clients={rep['clients']}, certificate={rep['certkind']}, hook={mode})", rep)
+                     f"({describe(rep['clients'])}; certificate={rep['certkind']}, hook={mode})", rep)
 
 
 class Spies:
@@ -985,8 +1065,10 @@ def run_sanction(ctx, res, lines, pending, thorough):
                  '/app/db/item/../../reset', '/api/ae/name/', '/api/ae/name?x=/api/cmd/run', ' /api/ae/name',
                  '/app/run ', '/app/unknown', '/api/ae/name\n/api/cmd/run']
         strangers_ok = []
+        res.count('key directories: ' + ('real PEM certificates' if env.real_pems else 'OPAQUE FALLBACK'))
+        keydirs = [False] + list(KEYDIRS)
         for e in uris + extra + [x for x in listed if x not in uris]:
-            for clients in (False, True):
+            for clients in keydirs:
                 for has_cert in (False, True):
                     cert = FakeCert() if has_cert else None
                     env.set(clients, 'default')
@@ -994,18 +1076,19 @@ def run_sanction(ctx, res, lines, pending, thorough):
                         direct = bool(security.is_sanctioned(e, cert))
                     except Exception as ex:  # pylint: disable=broad-except
                         direct = 'raised:' + type(ex).__name__
-                    lines.append(common.sx(['is', clients, has_cert, codes(e)]))
+                    lines.append(common.sx(['is', bool(clients), has_cert, codes(e)]))
                     pending.append(('is', {'endpoint': e, 'clients': clients, 'cert': has_cert}, direct))
                     res.count('is_sanctioned:' + str(direct))
-                    res.case(('is', e, clients, has_cert), nontrivial=clients and not has_cert)
+                    res.case(('is', e, clients, has_cert), nontrivial=bool(clients) and not has_cert)
                     if clients and not has_cert and direct is True:
                         strangers_ok.append(e)
                     # monitor: the commands named by the property are never open to a stranger
                     if clients and not has_cert and e in uris and last_segment(e) in COMMAND_WORDS and direct is True:
                         res.hit('C19:anon-command:' + e,
-                                f'is_sanctioned({e!r}, None) is True with client certificates configured: '
-                                f'a stranger may invoke {last_segment(e)}',
-                                {'kind': 'sanction', 'endpoint': e, 'clients': True, 'cert': False, 'hook': 'default'})
+                                f'is_sanctioned({e!r}, None) is True with client certificates configured '
+                                f'({describe(clients)}): a stranger may invoke {last_segment(e)}',
+                                {'kind': 'sanction', 'endpoint': e, 'clients': clients, 'cert': False,
+                                 'hook': 'default'})
                     for mode, (_ov, told) in HOOKS.items():
                         env.set(clients, mode)
                         try:
@@ -1022,16 +1105,17 @@ def run_sanction(ctx, res, lines, pending, thorough):
                         pending.append(('wrap', {'endpoint': e, 'clients': clients, 'cert': has_cert, 'hook': mode},
                                         (told, got)))
                         lines.append(common.sx(['wrap', told]) if told != 'default'
-                                     else common.sx(['is', clients, has_cert, codes(e)]))
+                                     else common.sx(['is', bool(clients), has_cert, codes(e)]))
                         res.count('sanctioned:' + mode + ':' + str(got))
         res.count('anonymous-open-endpoints', len([e for e in strangers_ok if e in uris]))
         # ---- grid 2: every registered resource x method x clients x certificate kind x hook,
         #      real __render with a recording handler
         modes = list(HOOKS) if thorough else ['default', 'allow', 'deny', 'raise', 'missing-mod', 'raise-base']
+        dirs2 = keydirs if thorough else [False, 'fresh', 'lapsed']
         for _p, dc in reg:
             uri = dc_uri(dc)
             for method in RENDER:
-                for clients in (False, True):
+                for clients in dirs2:
                     for certkind in ('noattr', 'none', 'cert'):
                         for mode in modes:
                             events, ok, seen, cert = render_recorded(env, dc, method, clients, certkind, mode)
@@ -1041,12 +1125,12 @@ def run_sanction(ctx, res, lines, pending, thorough):
                             if seen and (seen.get('endpoint') != uri or seen.get('cert') is not cert):
                                 res.diff('__render hands a different endpoint/certificate to the check', rep,
                                          [uri, certkind], [seen.get('endpoint'), repr(seen.get('cert'))])
-                            lines.append(common.sx(['req', codes(uri), method, clients, certkind == 'cert',
+                            lines.append(common.sx(['req', codes(uri), method, bool(clients), certkind == 'cert',
                                                     HOOKS[mode][1]]))
                             pending.append(('req', rep, events))
                             res.count('render:' + '+'.join(events))
                             res.case(('render', uri, method, clients, certkind, mode),
-                                     nontrivial=clients and certkind != 'cert',
+                                     nontrivial=bool(clients) and certkind != 'cert',
                                      sample=rep if (clients and 'denied' in events) else None)
         # ---- grid 3: the real handlers under recording mutators
         spies = Spies()
@@ -1055,16 +1139,18 @@ def run_sanction(ctx, res, lines, pending, thorough):
             for _p, dc in reg:
                 uri = dc_uri(dc)
                 for method in RENDER:
-                    for certkind in ('noattr', 'none'):
-                        fired = render_real(env, dc, method, True, certkind, spies)
-                        res.count('real-handler:anonymous:' + ('mutated' if fired else 'quiet'))
-                        res.case(('real', uri, method, certkind), nontrivial=True)
-                        if fired:
-                            res.hit('C19:anon-command:' + uri,
-                                    f'{method} {uri} without a certificate (clients configured) reached '
-                                    f'{", ".join(sorted(set(fired)))}',
-                                    {'kind': 'real', 'uri': uri, 'method': method, 'certkind': certkind})
-                    fired = render_real(env, dc, method, True, 'cert', spies)
+                    for clients in (list(KEYDIRS) if thorough else ['fresh', 'mixed', 'lapsed']):
+                        for certkind in ('noattr', 'none'):
+                            fired = render_real(env, dc, method, clients, certkind, spies)
+                            res.count('real-handler:anonymous:' + clients + ':' + ('mutated' if fired else 'quiet'))
+                            res.case(('real', uri, method, clients, certkind), nontrivial=True)
+                            if fired:
+                                res.hit('C19:anon-command:' + uri,
+                                        f'{method} {uri} without a certificate ({describe(clients)}) reached '
+                                        f'{", ".join(sorted(set(fired)))}',
+                                        {'kind': 'real', 'uri': uri, 'method': method, 'certkind': certkind,
+                                         'clients': clients})
+                    fired = render_real(env, dc, method, 'fresh', 'cert', spies)
                     if fired:
                         dyn.setdefault(uri, set()).update(fired)
                     res.count('real-handler:authorised:' + ('mutated' if fired else 'quiet'))
@@ -1213,12 +1299,14 @@ def replay(rep, res):
                     else:
                         spies = Spies()
                         try:
-                            fired = render_real(env, dc, inp['method'], True, inp['certkind'], spies)
+                            fired = render_real(env, dc, inp['method'], inp.get('clients', True), inp['certkind'],
+                                                spies)
                         finally:
                             spies.restore()
                         if fired:
                             res.hit('C19:anon-command:' + inp['uri'],
-                                    f"{inp['method']} {inp['uri']} without a certificate reached "
+                                    f"{inp['method']} {inp['uri']} without a certificate "
+                                    f"({describe(inp.get('clients', True))}) reached "
                                     + ', '.join(sorted(set(fired))), inp)
             finally:
                 env.restore()
